@@ -131,7 +131,7 @@ func init() {
 		Rule: "rapid histories over every state-changing entry point (assets/delegation/AVS precompile methods, operator, delegation, AVS and parameter messages, price transactions); each generated request is, with probability 1/2, first made by a generated caller that is not entitled to it " +
 			"(another contract account, EOA, operator, staker; non-owner; signer other than the named account with own key, with the named account's public key, or without signature; forged/missing price signature; ordinary account as governance authority) and then by the rightful caller; " +
 			"non-trivial = a history with at least 6 judged probes of at least 4 kinds, at least 2 of them confirmed by their rightful twin being accepted; distinct = hash of the (kind, outcome) sequence",
-		Gen:        GenOpts{Weights: authWeights(), HostilePct: 2, ExtremePct: 0, Anchor: true, Tempos: []int{7, 12, 21}, CapBits: 40, ClampBits: 56, Dynamic: authDynamic},
+		Gen:        GenOpts{Weights: authWeights(), HostilePct: 2, ExtremePct: 0, Anchor: true, Tempos: []int{7, 12, 21}, CapBits: 40, ClampBits: 40, Dynamic: authDynamic},
 		MinSteps:   40,
 		MaxSteps:   120,
 		Config:     authConfig,
